@@ -54,6 +54,11 @@ class Taint:
             return self.t[fpath][(pl['l'], pr[0]['f'])]
         if pr and isinstance(pr[0], dict) and 'f' in pr[0] and pl['l'] in self.tuple_only.get(fpath, ()):
             return None
+        if pl['l'] in self.tuple_only.get(fpath, ()):
+            # the whole tuple is used (moved into a container, passed to a call): any tainted field taints it
+            for key, lb in self.t[fpath].items():
+                if isinstance(key, tuple) and key[0] == pl['l']:
+                    return lb
         return self.t[fpath].get(pl['l'])
 
     def op_label(self, fpath, op, vset=None):
